@@ -148,9 +148,11 @@ structure PInv (E : Env) (s : St) (pre : List Item) (a : PAcc) : Prop where
 
 theorem pinv_visit {E : Env} (hincr : Incr E.nx) {s : St} (hq : QInv s) {pre : List Item} {a : PAcc} {it : Item}
     (hpre : ∀ x ∈ pre, x ∈ s.queue) (hit : it ∈ s.queue) (hdue : isDue s.now it = true) (hnot : it ∉ pre)
-    (h : PInv E s pre a) : PInv E s (pre ++ [it]) (visit E a it) := by
+    (skip : List Nat) (h : PInv E s pre a) : PInv E s (pre ++ [it]) (visit E skip a it) := by
   obtain ⟨hdel, hins, m, ht, hc⟩ := h
   unfold visit
+  split
+  · exact ⟨fun d hd => by simp [hdel d hd], hins, m, ht, hc⟩
   cases hb : aget a.busy (E.wk it.id) with
   | some _ =>
     exact ⟨fun d hd => by simp [hdel d hd], hins, m, ht, hc⟩
@@ -298,16 +300,16 @@ theorem takeWhile_prefix {α} (p : α → Bool) (l : List α) : ∃ r, l = l.tak
   ⟨l.dropWhile p, (List.takeWhile_append_dropWhile).symm⟩
 
 /-- The Ascend pass: the fold of `visit` over the due prefix of the queue. -/
-theorem pinv_fold {E : Env} (hincr : Incr E.nx) {s : St} (h : Good E s) :
+theorem pinv_fold {E : Env} (hincr : Incr E.nx) {s : St} (h : Good E s) (skip : List Nat) :
     PInv E s (s.queue.takeWhile (isDue s.now))
-      ((s.queue.takeWhile (isDue s.now)).foldl (visit E) { busy := s.busy }) := by
+      ((s.queue.takeWhile (isDue s.now)).foldl (visit E skip) { busy := s.busy }) := by
   obtain ⟨hq, m, ht, hc⟩ := h
   have hnd : (s.queue.takeWhile (isDue s.now)).Nodup := by
     obtain ⟨r, hr⟩ := takeWhile_prefix (isDue s.now) s.queue
     have := sorted_nodup hq.sorted
     rw [hr] at this
     exact (List.nodup_append.mp this).1
-  apply foldl_inv (visit E) (PInv E s)
+  apply foldl_inv (visit E skip) (PInv E s)
   · refine ⟨by simp, by simp, m, by simpa using ht, ?_⟩
     exact hc.mono (fun x hx => by
       rcases hx with ⟨hx, _⟩ | hx
@@ -318,19 +320,20 @@ theorem pinv_fold {E : Env} (hincr : Incr E.nx) {s : St} (h : Good E s) :
       intro y hy
       exact ⟨(List.takeWhile_sublist _).subset hy, mem_takeWhile_true _ _ _ hy⟩
     have hx := hmem x (by rw [hl]; simp)
-    apply pinv_visit hincr hq _ hx.1 hx.2 _ hp
+    apply pinv_visit hincr hq _ hx.1 hx.2 _ skip hp
     · intro y hy; exact (hmem y (by rw [hl]; simp [hy])).1
     · intro hxp
       rw [hl] at hnd
       have := (List.nodup_append.mp hnd).2.2 x hxp x (by simp)
       exact this rfl
 
-theorem good_process {E : Env} (hincr : Incr E.nx) {s : St} (h : Good E s) : Good E (process E s) := by
-  have hp := pinv_fold hincr h
+theorem good_process {E : Env} (hincr : Incr E.nx) {s : St} (h : Good E s) (skip : List Nat) :
+    Good E (process E skip s) := by
+  have hp := pinv_fold hincr h skip
   obtain ⟨hq, _⟩ := h
   unfold process
   simp only
-  generalize (s.queue.takeWhile (isDue s.now)).foldl (visit E) { busy := s.busy } = a at hp
+  generalize (s.queue.takeWhile (isDue s.now)).foldl (visit E skip) { busy := s.busy } = a at hp
   obtain ⟨hdel, hins, m, ht, hc⟩ := hp
   have hDq : ∀ d ∈ a.toDel, d ∈ s.queue := fun d hd => (List.takeWhile_sublist _).subset (hdel d hd)
   -- successors of distinct deleted items are distinct
